@@ -54,9 +54,10 @@ IDIOMS = {
     'I13': 'X.borrow_mut()  =>  X.as_mut_slice()   (BorrowMut<[u8]> for Vec<u8> / [u8; N] is the whole buffer as a slice)',
     'I14': 'T::from(E)  =>  T::from_<ty>(E)   (From-trait static dispatch made explicit; rustc re-checks that E has type <ty>)',
     'I15': 'M.entry(K).or_insert(V)  =>  idiom_entry_or_insert(&mut M, K, V)   (HashMap entry API: &mut to the value at K, V inserted first if absent)',
-    'I17': 'for (K, V) in &M {  =>  let es__ = idiom_map_entries(&M); for i__ in 0..es__.len() { let (K, V) = (&es__[i__].0, es__[i__].1);   (HashMap iteration = enumeration of the entries in an UNSPECIFIED order)',
+    'I17': 'for (K, V) in &M {  |  for (K, V) in M.iter() {  |  for V in M.values() {   =>  let es__ = idiom_map_entries(&M); for i__ in 0..es__.len() { let (K, V) = (&es__[i__].0, es__[i__].1);   (HashMap iteration = enumeration of the entries, each once, in an UNSPECIFIED order)',
     'I18': '*M.keys().max().unwrap()  =>  idiom_max_key(&M)   (panics on an empty map: precondition)',
     'I19': 'M.retain(|K, _| { *K >= A && *K <= B });  =>  idiom_retain_key_range(&mut M, A, B);',
+    'I24': 'PATH(ARGS).expect(MSG)  =>  idiom_expect(PATH(ARGS), MSG)   (Result::expect: returns only when the result is Ok, panics otherwise)',
     'A1': 'abstract-expression: `expr` => havoc::<T>() (unconstrained value)',
 }
 
@@ -426,12 +427,29 @@ def apply_idiom(ed, text, base, body_rel, loops, rest, item_id, log, rel, src):
             ed.replace(b + 1, b + 1, ' let %s = &%s[%s];' % (x_, e_, i_), 'I1')
         elif rule == 'I17':
             h = re.match(r'for \((\w+), (\w+)\) in &(\w+)\s*$', hdr, re.S)
-            if not h:
+            h2 = re.match(r'for \((\w+), (\w+)\) in ([\w.]+)\.iter\(\)\s*$', hdr, re.S)
+            h3 = re.match(r'for (\w+) in ([\w.]+)\.values\(\)\s*$', hdr, re.S)
+            if h:
+                k_, v_, m_ = h.groups()
+                ed.replace(a, a, 'let es__%s = idiom_map_entries(&%s); ' % (m_, m_), 'I17')
+                ed.replace(a, b, 'for i__%s in 0..es__%s.len() ' % (m_, m_), 'I17')
+                ed.replace(b + 1, b + 1, ' let (%s, %s) = (&es__%s[i__%s].0, es__%s[i__%s].1);' % (k_, v_, m_, m_, m_, m_), 'I17')
+            elif h2:
+                # `M.iter()`: both components are references
+                k_, v_, m_ = h2.groups()
+                id_ = re.sub(r'\W', '_', m_)
+                ed.replace(a, a, 'let es__%s = %s.idiom_entries(); ' % (id_, m_), 'I17')
+                ed.replace(a, b, 'for i__%s in 0..es__%s.len() ' % (id_, id_), 'I17')
+                ed.replace(b + 1, b + 1, ' let (%s, %s) = (es__%s[i__%s].0, es__%s[i__%s].1);' % (k_, v_, id_, id_, id_, id_), 'I17')
+            elif h3:
+                # `M.values()`: the value component of the same enumeration
+                v_, m_ = h3.groups()
+                id_ = re.sub(r'\W', '_', m_)
+                ed.replace(a, a, 'let es__%s = %s.idiom_entries(); ' % (id_, m_), 'I17')
+                ed.replace(a, b, 'for i__%s in 0..es__%s.len() ' % (id_, id_), 'I17')
+                ed.replace(b + 1, b + 1, ' let %s = es__%s[i__%s].1;' % (v_, id_, id_), 'I17')
+            else:
                 raise GenError('%s: loop header does not have the I17 shape: %s' % (item_id, hdr))
-            k_, v_, m_ = h.groups()
-            ed.replace(a, a, 'let es__%s = idiom_map_entries(&%s); ' % (m_, m_), 'I17')
-            ed.replace(a, b, 'for i__%s in 0..es__%s.len() ' % (m_, m_), 'I17')
-            ed.replace(b + 1, b + 1, ' let (%s, %s) = (&es__%s[i__%s].0, es__%s[i__%s].1);' % (k_, v_, m_, m_, m_, m_), 'I17')
         elif rule == 'I6':
             h = re.match(r'for (\w+) in &(.+?)\s*$', hdr, re.S)
             if not h:
@@ -473,6 +491,14 @@ def apply_idiom(ed, text, base, body_rel, loops, rest, item_id, log, rel, src):
             if text[b:b + 1] == ';':
                 b += 1
             anchor = text[a:b]
+        if rule == 'I15' and anchor.endswith('.entry('):
+            # the anchor names the map; the span is M.entry(<balanced>).or_insert(<balanced>) (K and V stay under proof)
+            e = _balanced_arg(text, b - 1)
+            mm2 = re.match(r'\s*\.or_insert\(', text[e + 1:])
+            if not mm2:
+                raise GenError('I15: .entry(..) is not followed by .or_insert(: %s' % text[a:e + 20])
+            b = _balanced_arg(text, e + 1 + mm2.end() - 1) + 1
+            anchor = text[a:b]
         inst['line'] = src.line_of(base + a)
         inst['original'] = anchor
         flat = rsx.norm_ws(anchor)
@@ -499,6 +525,27 @@ def apply_idiom(ed, text, base, body_rel, loops, rest, item_id, log, rel, src):
             pre = re.match(r'^([\w\.]+)\.extend\(', anchor)
             b = a + pre.end()
             new = 'idiom_extend(&mut %s, ' % h.group(1)
+        elif rule == 'I24':
+            if not re.match(r'^\.expect\("[^"]*"\)$', flat):
+                raise GenError('I24 shape mismatch: %s' % flat)
+            q = a
+            while q > 0 and text[q - 1].isspace():
+                q -= 1
+            if text[q - 1] != ')':
+                raise GenError('I24: receiver is not a call: %s' % text[max(0, q - 30):q])
+            depth, q = 0, q - 1
+            while True:
+                if text[q] == ')':
+                    depth += 1
+                elif text[q] == '(':
+                    depth -= 1
+                    if depth == 0:
+                        break
+                q -= 1
+            while q > 0 and (text[q - 1].isalnum() or text[q - 1] in '_:.'):
+                q -= 1
+            ed.replace(q, q, 'idiom_expect(', 'I24')
+            new = ', ' + anchor[len('.expect('):]
         elif rule == 'I12':
             h = re.match(r'^([\w\.]+)\.try_into\(\)\.expect\("[^"]*"\)$', flat)
             if not h:
